@@ -34,8 +34,11 @@ pub fn run(ctx: &Ctx) -> Outcome {
         let mut plans: Vec<Plan> = vec![vec![]];
         for k in 2..base.n_sends {
             plans.push(vec![(k, Fate::Drop)]);
+            // a late copy / a late original: old packets meet a connection that has moved on (closing states)
+            plans.push(vec![(k, Fate::Delay(300_000))]);
             if ctx.tier == Tier::Thorough {
-                plans.push(vec![(k, Fate::Delay(300_000))]);
+                plans.push(vec![(k, Fate::Dup)]);
+                plans.push(vec![(k, Fate::Delay(15_000))]);
             }
         }
         // two drops close together (two holes in one window: SACK recovery with several holes, whose
@@ -120,7 +123,7 @@ pub fn run(ctx: &Ctx) -> Outcome {
             }
         }
         part.distinct_outcomes = 2;
-        part.bound = format!("{} fault plans (fault-free + every single drop{} + every pair of drops at most {pair_span} sends apart) x {} (connection id, ISN A, ISN B) placements: the wrap at every one of the first {} positions on either side and on the diagonal, ids around 65535", plans.len(), if ctx.tier == Tier::Thorough { " / 300 ms delay" } else { "" }, variants.len(), span);
+        part.bound = format!("{} fault plans (fault-free + every single drop / 300 ms delay{} + every pair of drops at most {pair_span} sends apart) x {} (connection id, ISN A, ISN B) placements: the wrap at every one of the first {} positions on either side and on the diagonal, ids around 65535", plans.len(), if ctx.tier == Tier::Thorough { " / dup / 15 ms delay" } else { "" }, variants.len(), span);
         part.samples.push(json!({"scenario": scn.name, "ids": [100, 65530, 2000], "plan": []}));
         out.parts.push(part);
     }
